@@ -3,7 +3,7 @@ from enum import IntEnum
 from typing import Dict, List, Literal, Optional, Tuple, Type
 
 from gymnasium.core import ObsType
-from pydantic import Field
+from pydantic import Field, model_validator
 
 from primaite.game.agent.actions.acl import RouterACLAddRuleAction
 from primaite.game.agent.scripted_agents.abstract_tap import (
@@ -101,6 +101,33 @@ class TAP003(AbstractTAP, discriminator="tap-003"):
         """Agent Settings Schema that enforces TAP003's `kill_chain` config to use the InsiderKillChainOptions."""
 
         kill_chain: InsiderKillChainOptions  # = Field(default_factory=lambda: MobileMalwareKillChainOptions())
+
+        @model_validator(mode="after")
+        def check_network_knowledge_covers_targets(self) -> "TAP003.AgentSettingsSchema":
+            """Make sure the starting network knowledge holds the credentials of every host the agent is told to log into.
+
+            The start node is drawn from ``starting_nodes``. A host named in ``account_changes`` has its password changed
+            locally when it is the start node and over SSH otherwise, so it needs an ``ip_address`` unless it is the only
+            possible start node; the ``target_router`` of a malicious ACL is always reached over SSH. Without this check a
+            missing entry raises ``KeyError`` in the middle of an episode, and only for some start nodes.
+            """
+            credentials = self.kill_chain.PLANNING.starting_network_knowledge.get("credentials", {})
+            start_nodes = set(self.starting_nodes) if self.starting_nodes else {self.default_starting_node}
+            required = {}
+            for change in self.kill_chain.MANIPULATION.account_changes:
+                host = change.get("host")
+                keys = {"password"} if start_nodes == {host} else {"username", "password", "ip_address"}
+                required[host] = required.get(host, set()) | keys
+            for acl in self.kill_chain.EXPLOIT.malicious_acls:
+                required[acl.target_router] = required.get(acl.target_router, set()) | {"username", "password", "ip_address"}
+            for host, keys in required.items():
+                missing = sorted(keys - set(credentials.get(host, {})))
+                if missing:
+                    raise ValueError(
+                        f"TAP003 settings error: starting_network_knowledge has no {', '.join(missing)} for {host!r}, "
+                        f"which the kill chain is configured to log into (possible start nodes: {sorted(start_nodes)})"
+                    )
+            return self
 
     class ConfigSchema(AbstractTAP.ConfigSchema):
         """Config Schema for the TAP001 agent."""
